@@ -5,7 +5,9 @@ coq/Model/Endpoint.v; `encode_case` produces the driver line for bin/c01_driver 
 decodes its answer into the same observation shape that `Sched.observe` produces.
 
 Case   {"cfg": {"writer": "blocking"|"awaitable", "hook": "default"|"quiet"|"raises", "wfail": None|k},
-        "evs": [event, ...]}
+        "evs": [event, ...], "reg": "plain"|"ls"|"ann" (optional: how the scripted handlers are
+        registered - plain, first parameter `ls`, first parameter annotated with the server class; the
+        last two go through feature_manager.wrap_with_server; not seen by the model)}
 Event  ["recv", frame] | ["task", t] | ["cb", t] | ["jstart", j] | ["jfin", j] | ["write"] |
        ["exitcb"] | ["send", id] | ["scancel", id] | ["ocancel", o]
          (the last two are Model/EndpointX.v's ServerCancel i = cancel() on _request_futures[i] without
@@ -58,6 +60,7 @@ USER_METHOD = {"sync": "t/sync", "async": "t/async", "thread": "t/thread"}
 COMMAND = {"sync": "c.sync", "async": "c.async", "thread": "c.thread"}
 GARBAGE = [b"not json", b"[1, 2]", b"3", b"{}", b'{"id": 1, "method": "t/sync"}', b'{"jsonrpc": "2.0"}',
            b'"\xff\xfe"', b"null"]
+REG_SHAPES = ["plain", "ls", "ann"]
 BUILTIN_OK = "initialized"
 BUILTIN_FAIL = "textDocument/didClose"
 
@@ -112,11 +115,33 @@ def chained_behav(f):
     return None
 
 
+def cancel_wire_id(i, cv):
+    """`cv` = how an integer cancel id is spelled on the wire: as a JSON float (1 -> 1.0) or a JSON
+    boolean (1 -> true, 0 -> false); Python's dict treats them as the key 1 / 0."""
+    if cv == "float":
+        return float(i)
+    if cv == "bool":
+        return bool(i)
+    return i
+
+
+# `$/cancelRequest` frames whose id is not an int or a string ("cv" member of a notification frame):
+#   model POk + NUnknown (passes structuring, equals no key, nothing happens): null, a non-integral float
+#   model PBad (reported once, loop alive): array, object (unhashable / not structurable), no `id`, no params
+CANCEL_ODD = {"null": {"id": None}, "frac": {"id": 1.5}, "array": {"id": [1]}, "object": {"id": {"a": 1}},
+              "noid": {}, "noparams": None}
+
+
 def wire(f):
     """The body of the frame as the peer would send it."""
     t = f["t"]
     if t == "garbage":
         return GARBAGE[f["v"] % len(GARBAGE)]
+    if t == "notif" and f.get("cv") in CANCEL_ODD:
+        o = {"jsonrpc": "2.0" if f.get("ver", True) else "1.0", "method": "$/cancelRequest"}
+        if CANCEL_ODD[f["cv"]] is not None:
+            o["params"] = CANCEL_ODD[f["cv"]]
+        return json.dumps(o).encode()
     ver = "2.0" if f.get("ver", True) else "1.0"
     if t == "resp":
         o = {"jsonrpc": ver, "id": f["id"]}
@@ -163,7 +188,7 @@ def wire(f):
             if not f.get("np"):
                 o["params"] = {"tag": f["tag"]}
         elif k == "cancel":
-            o["params"] = {"id": m[1]}
+            o["params"] = {"id": cancel_wire_id(m[1], f.get("cv"))}
         elif k == "builtin":
             o["params"] = ({"textDocument": {"uri": "file:///never-opened.txt"}} if m[1] else {})
     return json.dumps(o).encode()
@@ -241,10 +266,11 @@ class _Pool:
 
 
 class Sched:
-    def __init__(self, cfg, chained=None, error_handler="protected", server_kwargs=None):
+    def __init__(self, cfg, chained=None, error_handler="protected", server_kwargs=None, reg="plain"):
         from pygls.lsp.server import LanguageServer
         from pygls.io_ import run_async
         self.cfg = cfg
+        self.reg = reg or "plain"           # registration shape of the scripted handlers: plain | ls | ann
         self.main = threading.current_thread()
         self.tls = threading.local()
         self.loop = asyncio.new_event_loop()
@@ -313,16 +339,42 @@ class Sched:
     def _register(self, chained):
         S = self
 
+        Srv = type(self.server)
+
         def mk(kind, part):
-            if kind == "async":
-                async def h(*args):
-                    return await S._h_async(part)
-            elif kind == "thread":
-                def h(*args):
-                    return S._h_thread(part)
+            # three registration shapes (pygls.feature_manager.wrap_with_server): a plain callable is
+            # registered as it is; one whose first parameter is named `ls`, or is annotated with the
+            # server's class, is wrapped (async: a coroutine that awaits it; sync/thread: a partial)
+            if S.reg == "ls":
+                if kind == "async":
+                    async def h(ls, *args):
+                        return await S._h_async(part)
+                elif kind == "thread":
+                    def h(ls, *args):
+                        return S._h_thread(part)
+                else:
+                    def h(ls, *args):
+                        return S._h_sync(part)
+            elif S.reg == "ann":
+                if kind == "async":
+                    async def h(server: Srv, *args):
+                        return await S._h_async(part)
+                elif kind == "thread":
+                    def h(server: Srv, *args):
+                        return S._h_thread(part)
+                else:
+                    def h(server: Srv, *args):
+                        return S._h_sync(part)
             else:
-                def h(*args):
-                    return S._h_sync(part)
+                if kind == "async":
+                    async def h(*args):
+                        return await S._h_async(part)
+                elif kind == "thread":
+                    def h(*args):
+                        return S._h_thread(part)
+                else:
+                    def h(*args):
+                        return S._h_sync(part)
             h._sched_part = part
             return h
 
@@ -721,10 +773,17 @@ def chained_of(case):
     return ch
 
 
+def case_reg(case):
+    return case.get("reg") or REG_SHAPES[len(case["evs"]) % 3]
+
+
 def run_case(case, error_handler="protected"):
     """Realise the event list on a fresh real LanguageServer; one observation per event.
     `case["gc"]` (optional): event indices after which the sentinels still alive are counted."""
-    s = Sched(case["cfg"], chained_of(case), error_handler)
+    # registration shape: the case says, else it is derived from the case (so that every property that
+    # drives its cases through run_case covers the three shapes)
+    reg = case_reg(case)
+    s = Sched(case["cfg"], chained_of(case), error_handler, reg=reg)
     obs = []
     gcs = set(case.get("gc") or [])
     alive = []
